@@ -301,6 +301,20 @@ REPLAY_RELEVANT = {
 }
 
 
+# assertion mismatches that ARE the property failing on that execution: the replay has validated every step up to
+# the assertion against the real execution, and what is compared is an observable the property speaks about whose
+# value in the model is a function of that validated prefix
+REPLAY_PROMOTE = {
+    "C14": {"?wpc": "a waiter released by a reconnect sequence returned something else than that sequence's outcome",
+            "?sfirst": "a reconnect sequence announced the wrong first / non-first status"},
+    "C15": {"?wpc": "waitForConnection returned something else than the outcome of the sequence the command waited for",
+            "?client": "a command was executed with a client other than the published one",
+            "?after": "DoCommand did not do what its decision table says after an execution"},
+    "C11": {"?pend": "the pending table does not hold exactly the outstanding calls"},
+    "C09": {"?hctx": "a handler's context was (not) cancelled although the model, following the same execution, says otherwise"},
+}
+
+
 def replay_session_traces(pid, tlog_path, findings, breaks, cov, rec, seed, mode_env, conn=False):
     """Site-level replay of every session of this run through Model/Transport.step (Model/Conn.step for mode conn)."""
     import replay as rp
@@ -375,6 +389,20 @@ def replay_session_traces(pid, tlog_path, findings, breaks, cov, rec, seed, mode
         else:
             others += 1
     rec["replay_divergences_elsewhere"] = others
+    promote = REPLAY_PROMOTE.get(pid, {})
+    rest = []
+    for idx, fl, ep, line, op in mine:
+        m = re.search(r"differs at (\d+) `(\S+)([^`]*)`: (.*?) \|", line)
+        if m and m.group(2) in promote and len(findings) < 40:
+            its = op.split(" ", 1)[1].split(" ; ") if " " in op else []
+            k = int(m.group(1))
+            findings.append(dict(sig=f"replay:{m.group(2)}:differs",
+                                 what=f"{promote[m.group(2)]} ({m.group(2)}{m.group(3)}: {m.group(4)}; session {idx}, flavour {fl}, endpoint {ep})",
+                                 data=dict(mode="conn" if conn else "session", seed=seed, session=idx, flavour=fl, endpoint=ep,
+                                           env=mode_env, last_actions=its[max(0, k - 40):k + 1], verdict=line[:600])))
+        else:
+            rest.append((idx, fl, ep, line, op))
+    mine = rest
     for idx, fl, ep, line, op in mine[:3]:
         its = op.split(" ", 1)[1].split(" ; ") if " " in op else []
         m = re.search(r"at (\d+)", line)
